@@ -472,6 +472,9 @@ pub fn c05_extra(rep: &mut Reporter, stats: &mut Stats, tier: Tier, _findings: &
     }
     // quick: a fixed stride keeps the run short; thorough: everything
     let stride = if tier == Tier::Thorough { 1 } else { 11 };
+    if stride == 1 {
+        stats.exhaustive = true;
+    }
     let items: Vec<_> = items.into_iter().enumerate().filter(|(i, _)| i % stride == 0).map(|(_, x)| x).collect();
     stats.notes.push(format!("C05 enumeration: {} (expression, name length, special leaf) items x {} contexts x 6 width classes; stride {}", items.len(), CONTEXTS.len(), stride));
     let results = par_map(&items, |_, (syn, e, len, special)| {
